@@ -164,7 +164,34 @@ func runC06(r *ev.Run, thorough bool) {
 	scs = append(scs, frameScenarios(func(t *rm.Type) bool { return true }, fd)...)
 	r.Rule = fmt.Sprintf("every type as a single-type scenario (messages Z, D; nil-extension variants; long variants) with ALL operation sequences of length <= %d over {ENC(m0),ENC(m1),SKIP(1),SKIP(3),JUNK(1 byte),JUNK(5000 bytes),RESET} x 4 capacity classes, plus all frame scenarios of C04 at depth %d; oracle: after ENC the unread buffer == prior ++ EncodeRef(m), prior bytes identical; same object encoded again gives the same bytes; distinct = (scenario,capacity,sequence)", depth, fd)
 	r.Assume("model transition for ENC is: unread ++= EncodeRef(m)")
+	for _, sc := range scs {
+		sc.SkipObjectCheck = true
+	}
 	parScenarios(r, "C06", scs)
+	// repeatability over the whole value space V1: the SAME object encoded twice into one buffer gives ref ++ ref
+	parTypes(r, bind.Types, func(t *rm.Type, l *ev.Local) {
+		sc := &hScenario{Name: t.QName() + " reenc", T: t, SkipObjectCheck: true}
+		seq := []hOp{{opJUNK, 0}, {opENC, 0}, {opENC, 0}, {opSKIP, 1}, {opENC, 0}}
+		valenum.Enum(t, valenum.Opts{K: 1, Big: false}, func(c *valenum.Case) bool {
+			if _, err := rm.EncodeBytes(c.V); err != nil {
+				return true
+			}
+			sc.Msgs = []*rm.Value{c.V.Clone()}
+			f, steps, key := runHistory(sc, capZero, seq)
+			l.Evals++
+			l.Transitions += int64(steps)
+			l.Traces++
+			l.Keys[ev.H(t.QName()+"reenc"+c.V.String())] = struct{}{}
+			l.States[key] = struct{}{}
+			if f != nil && histRelevant["C06"](f) {
+				v := histViolation("C06", sc, f, capZero, seq)
+				v.Detail = "value base " + c.Base + " dev {" + c.Desc + "}: " + v.Detail
+				r.Violate(v)
+				return !r.TooMany()
+			}
+			return true
+		})
+	})
 	r.Sample("szse.NewOrder nil-fill: [ENC(m0) ENC(m0) SKIP(3)] (encoder materialises the extension, second encode must give the same bytes)")
 	r.Set("bound", map[string]any{"depth": depth, "frame_depth": fd})
 }
